@@ -260,3 +260,26 @@ def mixed(rng, maxtok=30):
     if r < 0.92:
         return foreign_collide(rng)
     return random_text(rng, rng.randint(1, 80))
+
+
+def all_sequences(alphabet, max_len, i, n, joiner=""):
+    """Slice i of n of EVERY sequence of 1..max_len symbols over alphabet (index arithmetic; nothing is materialised).
+    -> (total, generator of joined strings)"""
+    k = len(alphabet)
+    total = sum(k ** l for l in range(1, max_len + 1))
+
+    def it():
+        idx = i
+        while idx < total:
+            r = idx
+            l = 1
+            while r >= k ** l:
+                r -= k ** l
+                l += 1
+            parts = []
+            for _ in range(l):
+                parts.append(alphabet[r % k])
+                r //= k
+            yield joiner.join(parts)
+            idx += n
+    return total, it()
